@@ -121,7 +121,10 @@ def identifier_from_u16(ctx):
     if not f:
         return
     v = FnView.get(P, f)
-    refusal(ctx, f, "SEP", "zero-refused", [("n==0", cmp_fact("eq", arg(1), const(0), True))], {b for (b, k, _) in ret_writes(f) if k in ("ok", "call")})
+    refusal(ctx, f, "SEP", "zero-refused",
+            [("n==0", cmp_fact("eq", arg(1), const(0), True)),
+             ("n.checked_ilog2() is Some", succ_fact(lambda t: is_call(t, name="checked_ilog2") and t[2] == (("arg", 1),)))],
+            {b for (b, k, _) in ret_writes(f) if k in ("ok", "call")}, require_fail_err=False)
     from ..paths import iteration_cases, Unbounded
     from .. import algebra
     from ..algebra import Alg, Unanalysable
@@ -142,8 +145,13 @@ def identifier_from_u16(ctx):
         if good:
             end = dict(rng[4])["end"]
             c, atoms = int_lin(end, "u16")
-            good = c == 15 and len(atoms) == 1 and list(atoms.values()) == [-1] and is_call(list(atoms)[0], name="leading_zeros") \
-                and list(atoms)[0][2][0] == ("arg", 1)
+            # 15 - leading_zeros(n)  ==  ilog2(n)  (n != 0): the index of the leading one
+            at = list(atoms)[0] if len(atoms) == 1 else None
+            while at is not None and at[0] in ("some", "ok"):
+                at = at[1]
+            good = at is not None and (
+                (c == 15 and list(atoms.values()) == [-1] and is_call(at, name="leading_zeros") and at[2][0] == ("arg", 1)) or
+                (c == 0 and list(atoms.values()) == [1] and is_call(at) and at[1].rsplit("::", 1)[-1] in ("ilog2", "checked_ilog2") and at[2][0] == ("arg", 1)))
             det = fmt(end)[:160]
         # every iteration doubles; the increment happens exactly when bit i of n is set; start from one
         al = Alg([(lambda t: t == ACC, ("scal", "v"))])
